@@ -93,7 +93,7 @@ def _bundled(ctx, vh, quick):
         s = run_json([vh, "bundled-emit", "--which", which, "--texts", texts, "--out", out, "--grammar-out", gram,
                       "--doc-every", "60" if quick else "20"], timeout=6000)
         os.remove(texts)
-        lines = open(out).read().splitlines()
+        lines = nl_lines(out)
         os.remove(out)
         parts = []
         for p in range(12):
@@ -186,7 +186,7 @@ def run(ctx):
             tot[k] += s[k]
         # split for parallel TLC
         lines = []
-        for line in open(out).read().splitlines():
+        for line in nl_lines(out):
             rec = json.loads(line)
             if len(rec["cases"]) <= 4000:
                 lines.append(line)
